@@ -544,6 +544,7 @@ class Frame:
         self.cls = cls
         self.node = node
         self._loop_ids = None
+        self.ctypes = mod.pyx_meta.get('ctypes', {}).get(node.name, {}) if (node is not None and mod.pyx_meta) else {}
 
     def loop_id(self, s):
         """ordinal of a loop statement = its position (source order) among the loops of this
@@ -753,6 +754,11 @@ class Frame:
     def assign(self, t, v):
         from . import npmodel
         if isinstance(t, ast.Name):
+            ct = self.ctypes.get(t.id) if self.ctypes else None
+            if ct == 'size_t' and isinstance(v, (SV, int)):
+                tv = v.t if isinstance(v, SV) else z3.IntVal(v)
+                self.I.oblige('safety', f"value assigned to size_t variable '{t.id}' is >= 0 (no unsigned wrap-around)", tv >= 0,
+                              getattr(t, 'lineno', None))
             self.env[t.id] = v
         elif isinstance(t, (ast.Tuple, ast.List)):
             items = npmodel.iterate(self.I, v)
@@ -855,6 +861,7 @@ class Frame:
                 nn = val.n
                 if val.kind == 'list':
                     nn = self.I.fresh(base + '_len', 'int')
+                    self.I.assume(nn >= 0)
                 r = SArr(na, nn, val.elem, val.kind, val.unchecked)
                 return r
             raise Unsupported(f"cannot havoc {base} of type {type(val).__name__}")
@@ -875,6 +882,15 @@ class Frame:
                     obj.fields[sname[1]] = new
             else:
                 old = self.env.get(sname)
+                if isinstance(old, PList) and old.kind == 'list':
+                    # python list that grows inside the loop: becomes a symbolic-length list
+                    elem = 'real'
+                    arr = z3.Array(f"{sname}!{self.I.run_id}_{next(self.I.fresh_counter)}", z3.IntSort(), z3.RealSort())
+                    ln = self.I.fresh(sname + '_len', 'int')
+                    new = SArr(arr, ln, elem, 'list')
+                    self.I.assume(ln >= 0)
+                    self.env[sname] = new
+                    continue
                 if isinstance(old, SArr):
                     new = hv(old, sname)
                     self._realias(old, new)
@@ -921,6 +937,7 @@ class Frame:
             itv = self.env['__it%d' % ordinal]
             if not isinstance(iterable, SArr):
                 raise Unsupported("for over non-array symbolic iterable")
+            self.I.assume(itv.t >= 0)      # engine-maintained ghost counter: starts at 0, only incremented
             cond = itv.t < iterable.n
         v0 = spec.variant(view) if spec.variant else None
         if self.I.decide(cond):
